@@ -646,8 +646,27 @@ def extract_class_methods(path, classname, targs, extra=(), use_cache=True):
         for x in d.get("inner", []) if d.get("kind") in ("ClassTemplateDecl", "NamespaceDecl") else []:
             visit(x)
 
+    spec_ids = set()
+
+    def find_ids(d):
+        if d.get("kind") == "ClassTemplateSpecializationDecl" and d.get("name") == classname and targs_of(d) == list(targs):
+            spec_ids.add(d.get("id"))
+        for x in d.get("inner", []) if d.get("kind") in ("ClassTemplateDecl", "NamespaceDecl") else []:
+            find_ids(x)
+
+    for d in docs:
+        find_ids(d)
     for d in docs:
         visit(d)
+    # explicit specializations of single members (template <> ... Class<int64_t>::method(...)) are separate
+    # top-level declarations whose parent context is the class specialization
+    for d in docs:
+        if d.get("kind") == "CXXMethodDecl" and d.get("parentDeclContextId") in spec_ids:
+            f = conv.func(d)
+            if f is not None:
+                f["file"] = out["file"]
+                f["template"] = classname
+                out["methods"].setdefault(d.get("name"), []).append(f)
     os.makedirs(os.path.dirname(cpath), exist_ok=True)
     tmp = cpath + ".%d.tmp" % os.getpid()
     json.dump(out, open(tmp, "w"))
